@@ -83,7 +83,7 @@ fn main() {
             let mut r = rng::Rng::new(seed);
             for i in 0..count {
                 let mut cr = r.fork();
-                let c = if i % 25 == 7 { ledger::gen_bulk_case(&mut cr) } else { ledger::gen_case(&mut cr) };
+                let c = if i % 25 == 7 { ledger::gen_bulk_case(&mut cr) } else if i % 25 == 13 { ledger::gen_extreme_case(&mut cr) } else { ledger::gen_case(&mut cr) };
                 let mut s = String::new();
                 ledger::run_case(&format!("L{}-{}", seed, i), &c, &mut s);
                 w.write_all(s.as_bytes()).unwrap();
